@@ -131,6 +131,61 @@ type zooItem struct {
 	v    any
 }
 
+// Go struct inputs whose fields are pointer chains (records behind **T, ***T; numbers behind **int), complete or
+// nil at any one level: what a nested record schema is handed when the input is a struct, not a map.
+type zooNestRec struct {
+	A string
+	B int
+}
+
+type zooNestIn struct {
+	N **zooNestRec
+	P ***zooNestRec
+	Q **int
+	L *[]int
+	A *string
+	B **int
+}
+
+func c06StructChains() []zooItem {
+	var out []zooItem
+	for _, nilAt := range []string{"none", "N.inner", "N.outer", "P.inner", "P.middle", "P.outer", "Q.inner", "Q.outer", "all"} {
+		rec := &zooNestRec{"x", 1}
+		var nilRec *zooNestRec
+		prec := &rec
+		i := 7
+		pi := &i
+		var nilInt *int
+		list := []int{1}
+		str := "s"
+		in := zooNestIn{N: &rec, P: &prec, Q: &pi, L: &list, A: &str, B: &pi}
+		switch nilAt {
+		case "N.inner":
+			in.N = &nilRec
+		case "N.outer":
+			in.N = nil
+		case "P.inner":
+			pn := &nilRec
+			in.P = &pn
+		case "P.middle":
+			var mid **zooNestRec
+			in.P = &mid
+		case "P.outer":
+			in.P = nil
+		case "Q.inner":
+			in.Q = &nilInt
+		case "Q.outer":
+			in.Q = nil
+		case "all":
+			in = zooNestIn{N: &nilRec, Q: &nilInt, B: &nilInt}
+			pn := &nilRec
+			in.P = &pn
+		}
+		out = append(out, zooItem{"struct input with pointer-chain fields, nil at " + nilAt, in}, zooItem{"*struct input with pointer-chain fields, nil at " + nilAt, &in})
+	}
+	return out
+}
+
 // c06BoundaryStrings: texts whose last multi-byte rune straddles or follows a power-of-two offset (anything that
 // clips, chunks or buffers text at such an offset must not cut through it), uncoercible as numbers.
 func c06BoundaryStrings() []zooItem {
@@ -156,7 +211,7 @@ func c06Zoo() []zooItem {
 	var nilIface any
 	var nilErr *zooErr
 	big := strings.Repeat("a", 1<<16)
-	return append(append(append(c06HandZoo(nilIface, nilErr, pi, ppi, psv, st, pst, ppst, big), c06PtrChains()...), c06Embeddings()...), append(c06Maps(), c06BoundaryStrings()...)...)
+	return append(append(append(c06HandZoo(nilIface, nilErr, pi, ppi, psv, st, pst, ppst, big), c06PtrChains()...), c06Embeddings()...), append(append(c06Maps(), c06BoundaryStrings()...), c06StructChains()...)...)
 }
 
 func c06HandZoo(nilIface any, nilErr *zooErr, pi *int, ppi **int, psv *string, st zooStruct, pst *zooStruct, ppst **zooStruct, big string) []zooItem {
@@ -384,6 +439,24 @@ func c06Targets() []c06Target {
 		{"Struct{A,B} capitalised keys in slice", func(in any) {
 			var d []c06AB
 			z.Slice(z.Struct(z.Schema{"A": z.String(), "B": z.Int()})).Parse([]any{in}, &d)
+		}},
+		{"Nested records under capitalised keys top (a Go struct input can name them)", func(in any) {
+			var d struct {
+				N zooNestRec
+				P *zooNestRec
+				Q *int
+				A string
+			}
+			rec := func() *z.StructSchema { return z.Struct(z.Schema{"A": z.String(), "B": z.Int()}) }
+			z.Struct(z.Schema{"N": rec(), "P": z.Ptr(rec()), "Q": z.Ptr(z.Int()), "A": z.String()}).Parse(in, &d)
+		}},
+		{"Nested records under capitalised keys in slice", func(in any) {
+			var d []struct {
+				N zooNestRec
+				P *zooNestRec
+			}
+			rec := func() *z.StructSchema { return z.Struct(z.Schema{"A": z.String(), "B": z.Int()}) }
+			z.Slice(z.Struct(z.Schema{"N": rec(), "P": z.Ptr(rec())})).Parse([]any{in}, &d)
 		}},
 		{"Slice(String) top", func(in any) { var d []string; z.Slice(z.String()).Parse(in, &d) }},
 		{"Slice(String) element", func(in any) { var d []string; z.Slice(z.String()).Parse([]any{"x", in}, &d) }},
